@@ -259,6 +259,7 @@ func sample(c Case) any {
 // text without '<' (so no <n> tag can occur inside a field) and without line breaks
 var textGen = rapid.OneOf(
 	rapid.StringMatching(`[ -;=-~]{0,40}`),
+	rapid.SampledFrom(vk.Placeholders), // "unknown", "?", "-", "none", "0" ...: text like any other
 	rapid.StringMatching(`[A-Z][a-z]{2,10}( [a-z]{2,10}){0,3}`),
 	rapid.Just(""),
 )
